@@ -42,16 +42,16 @@ default = pp.CaselessLiteral('default:').suppress() + _ - (
 prop = name + pp.Suppress(":") + string_literal
 
 column_setting = _ + (
-    pp.CaselessLiteral("not null").set_parse_action(
+    pp.CaselessKeyword("not null").set_parse_action(
         lambda s, loc, tok: True
     )('notnull')
-    | pp.CaselessLiteral("null").set_parse_action(
+    | pp.CaselessKeyword("null").set_parse_action(
         lambda s, loc, tok: False
     )('notnull')
-    | pp.CaselessLiteral("primary key")('pk')
+    | pp.CaselessKeyword("primary key")('pk')
     | pk('pk')
     | unique('unique')
-    | pp.CaselessLiteral("increment")('increment')
+    | pp.CaselessKeyword("increment")('increment')
     | note('note')
     | ref_inline('ref*')
     | default('default')
